@@ -162,10 +162,15 @@ class Request(HTTPConnection):
         an HTTPExcption exception will be thrown.
         """
         if self.content_type == "application/json":
+            data = self.body
             try:
-                return json.loads(
-                    self.body.decode(self.content_type.options.get("charset", "utf8"))
-                )
+                text = data.decode(self.content_type.options.get("charset", "utf8"))
+            except (ValueError, LookupError) as exc:
+                # bytes that are not text in the declared charset, or a charset
+                # parameter that names no text encoding
+                raise MalformedJSON(str(exc)) from None
+            try:
+                return json.loads(text)
             except json.JSONDecodeError as exc:
                 raise MalformedJSON(str(exc)) from None
 
